@@ -67,6 +67,19 @@ def gen_T10():
     need(handlers == sorted(['do004', 'do005', 'do352', 'do354', 'do353', 'doChghost', 'doJoin', 'do367', 'doMode',
                              'do324', 'do329', 'doPart', 'doKick', 'doQuit', 'doTopic', 'do332', 'doNick', 'doBatch',
                              'doAway']), 'IrcState handler inventory changed: %r' % handlers)
+    # do353 (userhost-in-names): splits the item, strips the prefixes, stores nick!user@host under the bare nick
+    d353 = _cls_def(st, 'do353')
+    u353 = ast.unparse(d353)
+    ls353 = [n for n in ast.walk(d353) if isinstance(n, ast.Call) and ast.unparse(n.func) == 'name.lstrip']
+    need(len(ls353) == 1, 'IrcState.do353: expected one name.lstrip(prefixes)')
+    sig_353 = ast.literal_eval(ls353[0].args[0])
+    need('name, user, host = ircutils.splitHostmask(item)' in u353 and "hostmask = '%s!%s@%s' % (nick, user, host)" in u353
+         and 'self.nicksToHostmasks[nick] = hostmask' in u353 and 'c.addUser(name)' in u353
+         and 'self.nicksToHostmasks[name] = name' not in u353, 'IrcState.do353 changed shape: ' + u353)
+    # doNick: the old entry is deleted before the new one is written
+    un = ast.unparse(_cls_def(st, 'doNick'))
+    i_del, i_set = un.find('del self.nicksToHostmasks[oldNick]'), un.find('self.nicksToHostmasks[newNick] = newHostmask')
+    need(0 <= i_del < i_set, 'IrcState.doNick: expected `del nicksToHostmasks[oldNick]` before `nicksToHostmasks[newNick] = ...`')
     irc = find_class(t, 'Irc')
     ns = None
     for n in irc.body:
@@ -76,6 +89,7 @@ def gen_T10():
     out = 'Definition PLUS_REQ : list N := %s.\n' % cstr(plus)
     out += 'Definition MINUS_REQ : list N := %s.\n' % cstr(minus)
     out += 'Definition SIGILS : list N := %s.\n' % cstr(sig_all)
+    out += 'Definition SIGILS_353 : list N := %s.\n' % cstr(sig_353)
     out += 'Definition SIGILS_OP : list N := %s.\n' % cstr(sig_op)
     out += 'Definition SIGIL_HALFOP : N := %d.\n' % ord(sig_half)
     out += 'Definition SIGIL_VOICE : N := %d.\n' % ord(sig_voice)
